@@ -193,6 +193,8 @@ def units_for(ctx: Ctx) -> List[Tuple[str, List[Dict[str, Any]]]]:
     u += space.layer_a_minmax_units(ctx.quick) + space.layer_a_lead_units(ctx.quick, wide=True) + space.layer_a_plen_units(ctx.quick)
     u += space.layer_b_units(ctx.quick)
     progs = [p for p in space.layer_c_programs(ctx.quick) if len(p["tags"][1].split("+")) <= 3]
+    if ctx.quick:  # depth 3 in the quick tier: only the programs with explicit far/zero positions and the responses
+        progs = [p for p in progs if len(p["tags"][1].split("+")) <= 2 or p.get("kind", "REQUEST") != "REQUEST" or set(p["tags"][2].split(":")[1]) & {"f", "z"}]
     chunk = 150
     u += [(f"C/{c // chunk}", progs[c:c + chunk]) for c in range(0, len(progs), chunk)]
     return u
@@ -201,7 +203,7 @@ def units_for(ctx: Ctx) -> List[Tuple[str, List[Dict[str, Any]]]]:
 def run(ctx: Ctx) -> None:
     units = units_for(ctx)
     ctx.bounds = {"layer_A": "all values of [-2^n, 2^(n+1)] for n <= %d, boundary sets up to 64 bit, wrong types" % (8 if ctx.quick else 12),
-                  "layer_C": "programs of depth <= 3, valid assignments + all single-fault neighbours (deviation bound 1)", "units": len(units),
+                  "layer_C": "programs of depth <= 3 (quick: depth 3 only with far/zero positions, and responses), valid assignments + all single-fault neighbours (deviation bound 1)", "units": len(units),
                   "backend": backend()}
     ctx.rule = "program x (valid or invalid) value assignment; non-trivial = distinct (construct, perturbation kind, outcome class)"
     ctx.assumptions = ["out-of-mask values of BIT-MASK types and integer-keyed MUX values are outside the envelope",
